@@ -220,7 +220,7 @@ def _run(ctx, scratch):
         jobs = [mc("wait", "SqliteEngine_mc_big.cfg", "MC WaitCommit master (4 writes, 1 failing, 2 readers, 2 crashes)"),
                 mc("wait", "SqliteEngine_mc_mid.cfg", "MC WaitCommit master (3 writes, 1 failing, 2 readers, 2 crashes, crc32 records)"),
                 mc("nowait", "SqliteEngine_nowait_big.cfg", "MC NoWaitCommit master (4 writes, 1 failing, 2 readers, 2 crashes)"),
-                mc("replica", "SqliteEngine_replica_big.cfg", "MC replica (4 writes, 1 reader, 1 crash, crc32 records)"),
+                mc("replica", "SqliteEngine_replica_big.cfg", "MC replica (3 writes, 1 reader, 2 crashes, crc32 records)"),
                 live]
     else:
         jobs = [mc("wait", "SqliteEngine_mc.cfg", "MC WaitCommit master (3 writes, 1 failing, 1 reader, 1 crash, crc32 records)"),
